@@ -2,10 +2,11 @@
     Statements only; proofs are in Proofs/TetMesh*.v and Checker/TetMesh.v, the model in
     Model/TetMesh.v, the literal tables in Gen/TetTables.v (regenerated from the source on
     every run: a changed table row re-opens the obligations below). *)
-From Coq Require Import List ZArith Reals Lra.
+From Coq Require Import List ZArith Reals Lra Lia.
 From D3 Require Import Base.Ops Base.Vec Model.TetSym Gen.TetTables Model.TetMesh Model.TetMeshProc Checker.TetMesh
                        Proofs.TetMeshBase Proofs.TetMeshBox Proofs.TetMeshCyl
-                       Proofs.TetMeshIcoKey Proofs.TetMeshIcoPure Proofs.TetMeshIco Proofs.TetMeshHelpers.
+                       Proofs.TetMeshIcoKey Proofs.TetMeshIcoPure Proofs.TetMeshIco Proofs.TetMeshHelpers
+                       Proofs.TetMeshCaps Model.TetMeshBody Proofs.TetMeshBodyProofs.
 Import ListNotations.
 Local Open Scope R_scope.
 
@@ -80,6 +81,18 @@ Theorem C17_cylinder_potentials : forall radius len rim,
   Rabs (cyl_medial_pot radius len - Rmin radius (len / 2)) <= cyl_slack radius len.
 Proof. exact cyl_mesh_rim_potentials. Qed.
 
+(** ** make_tetrahedral_capsule, any number of ring vertices and cap circles: orientation and
+    volume.  [ring]: the directions (cos phi_j, sin phi_j), consecutive ones (j, j + 1 mod n)
+    counter-clockwise; [circ]: (sin theta_i, cos theta_i), i.e. the cap profile
+    (rho_i, zeta_i) = radius * (sin, cos) with rho_i > 0, turning counter-clockwise, circle 0
+    above the medial point. *)
+Theorem C17_capsule_volumes : forall radius height circ ring,
+  0 < radius -> 0 < height -> ring_ccw ring -> prof_ok radius height circ ->
+  let m := capsule_mesh (O := ROps) radius height circ ring in
+  tets_oriented 1 (mverts m) (mtets m) /\
+  sum_vol6 1 (mverts m) (mtets m) = Some (capsule_total radius height circ ring).
+Proof. exact capsule_mesh_volumes. Qed.
+
 (** ** make_triangular_icosphere (sphere / ellipsoid), EVERY subdivision order: the triangle
     list is a closed, consistently oriented surface; the midpoint cache is empty after each pass
     and the vertex count is the size of the preallocated array *)
@@ -144,6 +157,16 @@ Theorem C17_helper_com : forall tps : list (@tetpts R),
   = wsum (combine vols (map (centroid (O := ROps)) tps)).
 Proof. exact mesh_com_spec. Qed.
 
+(** ** RigidBody: after ANY sequence of property reads and express_in calls, the lazily cached
+    tetrahedra_points / com / aabbs / aabb() are what a direct computation on the current
+    vertices gives (any arithmetic) *)
+Theorem C17_rigid_body_reads_direct : forall (pose : Pose R) vs ts ps (history : list (@op R)),
+  let b := fold_left (step (O := ROps)) history (new_body pose vs ts ps) in
+  fst (get_tp b) = direct_tp b /\ fst (get_com (O := ROps) b) = direct_com (O := ROps) b /\
+  fst (get_aabbs (O := ROps) b) = direct_aabbs (O := ROps) b /\
+  fst (get_root (O := ROps) b) = root_aabb (O := ROps) (direct_aabbs (O := ROps) b).
+Proof. exact (reads_are_direct (O := ROps)). Qed.
+
 (** ** the tolerance literals of the class selection are the documented ones
     (1e-14 as binary64 = 6338253001141147 / 2^99); the theorems above hold for any positive
     tolerance, so this pin is what re-opens an obligation when a tolerance is edited *)
@@ -177,6 +200,22 @@ Proof.
   - reflexivity.
 Qed.
 
+Example C17_capsule_nonvacuous :
+  let ring := [(1, 0); (0, 1); (-1, 0); (0, -1)] in
+  let circ := [(1, 0); (1 / 2, 1 / 2)] in
+  ring_ccw ring /\ prof_ok 1 1 circ /\ length (capsule_elements (length ring) (length circ)) = 36%nat.
+Proof.
+  split; [|split].
+  - intros a Ha. cbn in Ha.
+    destruct a as [|[|[|[|a]]]]; try lia; cbn; eexists; eexists; (split; [reflexivity|split; [reflexivity|]]);
+      unfold cross2; cbn; lra.
+  - split; [|split].
+    + intros i sc H. destruct i as [|[|[|i]]]; cbn in H; inversion H; subst; cbn; lra.
+    + intros i sc sc' H H'. destruct i as [|[|i]]; cbn in H, H'; inversion H; inversion H'; subst; cbn; lra.
+    + exists (1, 0). split; [reflexivity|]. cbn. lra.
+  - reflexivity.
+Qed.
+
 Example C17_icosphere_nonvacuous :
   good 12 TetTables.ico_tris /\ length (fst (ico_topology 2)) = 320%nat /\ ic_next (snd (ico_topology 2)) = 162%Z.
 Proof. split; [exact ico_base_good|split; vm_compute; reflexivity]. Qed.
@@ -192,6 +231,8 @@ Print Assumptions C17_elements_in_box.
 Print Assumptions C17_cylinder_volumes.
 Print Assumptions C17_cylinder_classes.
 Print Assumptions C17_cylinder_potentials.
+Print Assumptions C17_capsule_volumes.
+Print Assumptions C17_rigid_body_reads_direct.
 Print Assumptions C17_icosphere_closed.
 Print Assumptions C17_cache_key_injective.
 Print Assumptions C17_subdivision_preserves.
@@ -204,5 +245,6 @@ Print Assumptions C17_tolerances_pinned.
 Print Assumptions C17_mesh_cert_sound.
 Print Assumptions C17_box_nonvacuous.
 Print Assumptions C17_cylinder_nonvacuous.
+Print Assumptions C17_capsule_nonvacuous.
 Print Assumptions C17_icosphere_nonvacuous.
 Print Assumptions C17_mesh_cert_nonvacuous.
